@@ -4,6 +4,7 @@ import Driver.Ops.C03
 import Driver.Ops.C04
 import Driver.Ops.C05
 import Driver.Ops.C06
+import Driver.Ops.C06Splits
 import Driver.Ops.C07
 import Driver.Ops.C08
 import Driver.Ops.C09
@@ -26,6 +27,7 @@ def allOps : OpTable :=
   ++ opsC04
   ++ opsC05
   ++ opsC06
+  ++ opsC06Splits
   ++ opsC07
   ++ opsC08
   ++ opsC09
